@@ -38,7 +38,8 @@ let t_call_pk pk t =
 
 let kprm (p : prm) left : Krylov.kprm =
   { Krylov.p_maxiter = p.maxiter; p_tol = p.tol; p_abstol = p.abstol; p_ns = p.ns; p_ca = p.ca; p_M = p.m;
-    p_left = left; p_damping = p.damping }
+    p_left = left; p_damping = p.damping; p_K = p.k; p_areset = p.areset; p_L = p.l; p_delta = p.delta;
+    p_convex = p.convex }
 
 let jvec n = List.init n (fun _ -> junkv)
 let show_out (o : Krylov.kout) = match o with
@@ -46,22 +47,34 @@ let show_out (o : Krylov.kout) = match o with
   | Krylov.KOk r -> if r.Krylov.k_oof then "MODEL-OUT-OF-FUEL" else
       string_of_int r.Krylov.k_it ^ " " ^ show_s r.Krylov.k_res ^ " " ^ show_vec r.Krylov.k_x
 
-let modelled = ["cg"; "bicgstab"; "richardson"; "gmres"; "fgmres"]
-let run_model name (p : prm) left (c : call) : string =
-  let n = List.length c.f in
+let modelled = ["cg"; "bicgstab"; "richardson"; "gmres"; "fgmres"; "lgmres"]
+
+(* workspace of a solver object: junk-filled scratch for a fresh object (the object state that is
+   NOT scratch -- the LGMRES buffer of augmentation vectors -- starts empty as in the constructor) *)
+type ws = WCg of Krylov.cg_ws | WRi of Krylov.ri_ws | WBs of Krylov.bs_ws | WGm of Krylov.gm_ws | WLg of Krylov.lg_ws
+let junk_gm n = { Krylov.g_H = (fun _ _ -> junkv); g_s = (fun _ -> junkv); g_cs = (fun _ -> junkv); g_sn = (fun _ -> junkv);
+                  g_r = jvec n; g_v = (fun _ -> jvec n); g_z = (fun _ -> jvec n) }
+let fresh_ws name n : ws = match name with
+  | "cg" -> WCg { Krylov.cg_r = jvec n; cg_s = jvec n; cg_p = jvec n; cg_q = jvec n }
+  | "richardson" -> WRi { Krylov.ri_r = jvec n; ri_s = jvec n }
+  | "bicgstab" -> WBs { Krylov.bs_r = jvec n; bs_p = jvec n; bs_v = jvec n; bs_s = jvec n; bs_t = jvec n; bs_rh = jvec n; bs_T = jvec n }
+  | "gmres" | "fgmres" -> WGm (junk_gm n)
+  | "lgmres" -> WLg { Krylov.l_g = junk_gm n; l_data = (fun _ -> jvec n); l_outer = Krylov.cb_clear }
+  | _ -> failwith "unsupported"
+(* one call on an object in state w: returns the printed result and the state after the call *)
+let call_model name (p : prm) left (c : call) (w : ws) : string * ws =
   let kp = kprm p left in
-  match name with
-  | "cg" -> show_out (fst (Krylov.cg sc c.opA c.opP kp c.f c.x0
-                             { Krylov.cg_r = jvec n; cg_s = jvec n; cg_p = jvec n; cg_q = jvec n }))
-  | "richardson" -> show_out (fst (Krylov.richardson sc c.opA c.opP kp c.f c.x0 { Krylov.ri_r = jvec n; ri_s = jvec n }))
-  | "bicgstab" -> show_out (fst (Krylov.bicgstab sc c.opA c.opP kp c.f c.x0
-                             { Krylov.bs_r = jvec n; bs_p = jvec n; bs_v = jvec n; bs_s = jvec n; bs_t = jvec n;
-                               bs_rh = jvec n; bs_T = jvec n }))
-  | "gmres" | "fgmres" ->
-    let w = { Krylov.g_H = (fun _ _ -> junkv); g_s = (fun _ -> junkv); g_cs = (fun _ -> junkv); g_sn = (fun _ -> junkv);
-              g_r = jvec n; g_v = (fun _ -> jvec n); g_z = (fun _ -> jvec n) } in
-    show_out (fst ((if name = "gmres" then Krylov.gmres else Krylov.fgmres) sc c.opA c.opP kp c.f c.x0 w))
-  | _ -> "UNSUPPORTED-SOLVER"
+  match name, w with
+  | "cg", WCg w -> let (o, w') = Krylov.cg sc c.opA c.opP kp c.f c.x0 w in (show_out o, WCg w')
+  | "richardson", WRi w -> let (o, w') = Krylov.richardson sc c.opA c.opP kp c.f c.x0 w in (show_out o, WRi w')
+  | "bicgstab", WBs w -> let (o, w') = Krylov.bicgstab sc c.opA c.opP kp c.f c.x0 w in (show_out o, WBs w')
+  | "gmres", WGm w -> let (o, w') = Krylov.gmres sc c.opA c.opP kp c.f c.x0 w in (show_out o, WGm w')
+  | "fgmres", WGm w -> let (o, w') = Krylov.fgmres sc c.opA c.opP kp c.f c.x0 w in (show_out o, WGm w')
+  | "lgmres", WLg w -> let (o, w') = Krylov.lgmres sc c.opA c.opP kp c.f c.x0 w in (show_out o, WLg w')
+  | _ -> ("UNSUPPORTED-SOLVER", w)
+let run_model name (p : prm) left (c : call) : string =
+  if not (List.mem name modelled) then "UNSUPPORTED-SOLVER"
+  else fst (call_model name p left c (fresh_ws name (List.length c.f)))
 
 let show_ref o = match o with
   | None -> "EXC runtime_error"
@@ -86,12 +99,19 @@ let () =
     runner name p left c in
   reg "solve" (solve_like run_model);
   reg "ref" (solve_like run_ref);
-  let seq t =
+  (* seq: ONE model object, the state returned by a call is the state the next call starts from;
+     seqfresh: a fresh (junk) object per call *)
+  let seq thread t =
     let (name, left) = head t in let p = t_prm t in
-    let _n = t_i t in let nc = t_i t in
-    let outs = List.init nc (fun _ -> let pk = t_s t in let c = t_call_pk pk t in run_model name p left c) in
-    String.concat " ; " outs in
-  reg "seq" seq; reg "seqfresh" seq;
+    let n = t_i t in let nc = t_i t in
+    if not (List.mem name modelled) then "UNSUPPORTED-SOLVER" else begin
+      let w = ref (fresh_ws name n) in
+      let outs = List.init nc (fun _ ->
+        let pk = t_s t in let c = t_call_pk pk t in
+        let (o, w') = call_model name p left c (if thread then !w else fresh_ws name n) in
+        w := w'; o) in
+      String.concat " ; " outs end in
+  reg "seq" (seq true); reg "seqfresh" (seq false);
   reg "richk" (fun t ->
     let (_, _) = head t in let pk = t_s t in let p = t_prm t in let c = t_call_pk pk t in
     show_vec (KrylovRef.rich_iter sc c.opA c.opP p.damping c.f p.maxiter c.x0));
